@@ -52,6 +52,35 @@ def prepare(root, seed):
                  "group": f"create-{i}"},
                 {"op": "parse", "id": f"parse-yaml-{i}", "src": f"{root}/e{i}.suit", "fmt": "yaml", "hier": i % 2 == 0},
                 {"op": "parse", "id": f"parse-json-{i}", "src": f"{root}/e{i}.suit", "fmt": "json", "hier": i % 2 == 1}]
+    # --- near collisions: inputs that agree on a plausible cache key but differ elsewhere -----------------------------
+    def ns_desc(vendor, extra=0):
+        return {"SUIT_Envelope_Tagged": {
+            "suit-authentication-wrapper": {"SuitDigest": {"suit-digest-algorithm-id": "cose-alg-sha-256"}},
+            "suit-manifest": {"suit-manifest-version": 1, "suit-manifest-sequence-number": 1 + extra,
+                              "suit-common": {"suit-components": [["INSTLD_MFST", {"RFC4122_UUID": {
+                                  "namespace": vendor, "name": "application"}}]],
+                                  "suit-shared-sequence": [{"suit-directive-override-parameters": {
+                                      "suit-parameter-vendor-identifier": {"RFC4122_UUID": vendor},
+                                      "suit-parameter-class-identifier": {"RFC4122_UUID": {
+                                          "namespace": vendor, "name": "application"}}}}]},
+                              "suit-manifest-component-id": ["INSTLD_MFST", {"RFC4122_UUID": {
+                                  "namespace": vendor, "name": "application"}}]}}}
+    for tag, vendor in (("a", "vendor-a.example"), ("b", "vendor-b.example"), ("c", "application")):
+        _atomic(f"{root}/ns_{tag}.json", json.dumps(ns_desc(vendor)).encode())
+        ops.append({"op": "create", "id": f"create-samename-{tag}", "src": f"{root}/ns_{tag}.json"})
+    for tag in ("a", "b"):
+        # the same file NAME in two directories with different content, referenced for digest, size and payload
+        _atomic(f"{root}/dir_{tag}/fw.bin", random.Random(f"{seed}/C18/fwdir/{tag}").randbytes(100 + ord(tag)))
+        d = {"SUIT_Envelope_Tagged": {
+            "suit-authentication-wrapper": {"SuitDigest": {"suit-digest-algorithm-id": "cose-alg-sha-256"}},
+            "suit-manifest": {"suit-manifest-version": 1, "suit-manifest-sequence-number": 1, "suit-common": {},
+                              "suit-install": [{"suit-directive-override-parameters": {
+                                  "suit-parameter-image-digest": {"suit-digest-algorithm-id": "cose-alg-sha-256",
+                                                                  "suit-digest-bytes": {"file": f"{root}/dir_{tag}/fw.bin"}},
+                                  "suit-parameter-image-size": {"file": f"{root}/dir_{tag}/fw.bin"}}}]},
+            "suit-integrated-payloads": {"#fw.bin": f"{root}/dir_{tag}/fw.bin"}}}
+        _atomic(f"{root}/samefile_{tag}.yaml", yaml.safe_dump(d, sort_keys=False).encode())
+        ops.append({"op": "create", "id": f"create-samefile-{tag}", "src": f"{root}/samefile_{tag}.yaml"})
     # --- boot storage --------------------------------------------------------------------------------------
     for j in range(4):
         soc = ["nrf54h20", "nrf9280"][j % 2]
@@ -99,6 +128,15 @@ def prepare(root, seed):
             _atomic(p, random.Random(f"{seed}/C18/pl/{k}/{q}").randbytes([0, 5, 100, 1000][(k + q) % 4]))
             inputs.append(f"#uri{k}_{q},{p}")
         ops.append({"op": "cache-payloads", "id": f"cache-payloads-{k}", "inputs": inputs, "eb": [8, 16, 64][k]})
+    # the same URIs as cache-payloads-0 with other content and another erase-block size
+    inputs = []
+    for q in range(3):
+        p = f"{root}/pl_same_{q}.bin"
+        _atomic(p, random.Random(f"{seed}/C18/plsame/{q}").randbytes(7 + q))
+        inputs.append(f"#uri0_{q},{p}")
+    ops.append({"op": "cache-payloads", "id": "cache-payloads-sameuris", "inputs": inputs, "eb": 32})
+    ops.append({"op": "mpi-generate", "id": "mpi-generate-sameclass", "vendor": "acme.org", "cls": "nRF54H20_sample_root",
+                "addr": 0x1000, "size": 48, "dp": True, "iu": True, "sv": None})
     for k in range(2):
         ops.append({"op": "cache-envelope", "id": f"cache-envelope-{k}", "src": f"{root}/e{k}.suit", "eb": [16, 4][k],
                     "omit": [None, ".*0"][k], "dep": [None, "#dep.*"][k]})
